@@ -4,5 +4,6 @@ import Babble.Props.C02
 import Babble.Props.C03
 import Babble.Props.C04
 import Babble.Props.C07
+import Babble.Props.C16
 import Babble.Props.C18
 import Babble.Props.C19
